@@ -37,6 +37,7 @@ def parts(tier):
     return [
         Part('continuous', schedgen.histories(max_ops=40 if not T else 80, big=T), quick=170, thorough=1000),
         Part('lfs_mem_heavy', schedgen.histories(max_ops=25 if not T else 50, big=T, heavy=True, app=False), quick=60, thorough=300),
+        Part('gpu_shares_blocked_gpus', schedgen.histories(max_ops=20 if not T else 40, big=T, app=False, gpu_focus=True), quick=50, thorough=300),
         Part('jsrun', schedgen.histories(max_ops=30 if not T else 60, big=T, cls='jsrun', app=False), quick=40, thorough=200),
         Part('nodelist', nodelistsim.nl_cases(), quick=250, thorough=2500),
         Part('nodelist_numa', nodelistsim.numa_cases(), quick=80, thorough=600),
